@@ -9,7 +9,7 @@ EXPLANATION = ('C11: real Bracket_Method::Bracket, Brent::Minimize, Find_Minimum
                'Bracket returns a bracketing triple (fb <= fa, fb <= fc, bx between ax and cx, stored values are the objective at the stored points); Brent returns the point of least value seen, inside the bracket; '
                'inductive step over the Brent loop from an arbitrary state satisfying its invariant (module variant lowered with loop rotation disabled): evaluation inside the current bracket, best value never increases, invariant re-established - for every number of iterations; '
                'Find_Minimum is never worse than both starting abscissae; Find_Maximum(f) and Find_Minimum(-f) give identical terms; Nelder-Mead: reported fmin / y / simplex are the objective at the reported points, best-first, never worse than the best initial vertex, returned only when the spread of the vertex values passes the relative test against ftol; the convenience overloads start from point + delta*e_i.')
-BOUNDS = {'quick': {'bracket_evals': 5, 'brent_evals': 3, 'findmin_evals': 5, 'nm_dims': [1, 2], 'nm_extra_evals': 3}, 'thorough': {'bracket_evals': 7, 'brent_evals': 6, 'findmin_evals': 8, 'nm_dims': [1, 2, 3], 'nm_extra_evals': 5}}
+BOUNDS = {'quick': {'bracket_evals': 5, 'brent_evals': 3, 'findmin_evals': 5, 'nm_dims': [1, 2], 'nm_extra_evals': 3}, 'thorough': {'bracket_evals': 6, 'brent_evals': 5, 'findmin_evals': 7, 'nm_dims': [1, 2, 3], 'nm_extra_evals': 4}}
 NOT_DECIDED = ['all convergence-distance clauses (returned point within the tolerance-implied distance of the true minimiser)', 'behaviour beyond the evaluation bound (paths with more evaluations are cut)']
 ASSUMPTIONS = ['objective uninterpreted; doubles exact reals', 'paths are explored up to the stated number of objective evaluations; tolerances symbolic (so that returning paths exist at every depth)']
 
@@ -17,6 +17,7 @@ SRCS = ['Special_Functions.cpp', 'Utilities.cpp', 'Linear_Algebra.cpp', 'Integra
 NATIVE_SRCS = ['Special_Functions.cpp', 'Utilities.cpp', 'Linear_Algebra.cpp', 'Integration.cpp', 'Statistics.cpp', 'Natural_Units.cpp']
 KEEP = ['verif_c11_bracket', 'verif_c11_brent', 'verif_c11_findmin', 'verif_c11_findmax', 'verif_c11_nm']
 G = {}
+TL = [1]      # exploration time budget factor: 1 in the quick tier, 4 in the thorough tier (set in jobs())
 def module(ctx):
     if 'm' not in G:
         G['m'] = ctx.lower(SRCS, 'C11.cpp', KEEP)
@@ -37,7 +38,7 @@ def mvc(p, **kw):
 def job_bracket(K):
     res = []; tag = 'bracket/K%d' % K; outp = {}
     def out(st): outp['a'] = st.alloc(48); return outp['a']
-    _, paths = run('@verif_c11_bracket', [A, B, out], user_f(maxcalls=K), pre=[A != B], limits=Limits(max_paths=3000, feas_ms=300, max_seconds=400))
+    _, paths = run('@verif_c11_bracket', [A, B, out], user_f(maxcalls=K), pre=[A != B], limits=Limits(max_paths=3000, feas_ms=300, max_seconds=400 * TL[0]))
     nret = 0
     for pi, p in enumerate(paths):
         if p.end is not None:
@@ -56,7 +57,7 @@ def job_brent(K):
     res = []; tag = 'brent/K%d' % K; AX, BX, CX = z3.Real('ax'), z3.Real('bx'), z3.Real('cx'); outp = {}
     def out(st): outp['a'] = st.alloc(16); return outp['a']
     pre = [between(AX, BX, CX), TOL > 0]
-    _, paths = run('@verif_c11_brent', [AX, BX, CX, TOL, out], user_f(maxcalls=K), pre=pre, limits=Limits(max_paths=3000, feas_ms=300, max_seconds=400))
+    _, paths = run('@verif_c11_brent', [AX, BX, CX, TOL, out], user_f(maxcalls=K), pre=pre, limits=Limits(max_paths=3000, feas_ms=300, max_seconds=400 * TL[0]))
     nret = 0; lo = z3.If(AX < CX, AX, CX); hi = z3.If(AX < CX, CX, AX)
     for pi, p in enumerate(paths):
         if p.end is not None:
@@ -89,7 +90,7 @@ def job_brent_step():
         st.pc += [LO <= Aq, Aq <= Xq, Xq <= Bq, Bq <= HI, LO <= Wq, Wq <= HI, LO <= Vq, Vq <= HI, F1(Xq) <= F1(Wq), F1(Xq) <= F1(Vq), It >= 0, It <= 99]
         st.events.append(('havoc', len([e for e in st.events if e[0] == 'call'])))
     def out(st): outp['a'] = st.alloc(16); return outp['a']
-    it = Interp(mod, intercept=user_f(maxcalls=4), limits=Limits(max_paths=3000, feas_ms=500, max_seconds=500)); it.havoc[(fns[0], heads[0])] = handler
+    it = Interp(mod, intercept=user_f(maxcalls=4), limits=Limits(max_paths=3000, feas_ms=500, max_seconds=500 * TL[0])); it.havoc[(fns[0], heads[0])] = handler
     st = it.new_state(); st.pc += [between(AX, BX, CX), TOL > 0]
     ps = it.execute('@verif_c11_brent', [AX, BX, CX, TOL, out(st)], st)
     mv0 = {'ax': AX, 'bx': BX, 'cx': CX, 'tol': TOL, 'h_a': Aq, 'h_b': Bq, 'h_x': Xq, 'h_w': Wq, 'h_v': Vq, 'h_fx': F1(Xq), 'h_fw': F1(Wq), 'h_fv': F1(Vq), 'h_d': Dq, 'h_e': Eq, 'h_iter': It, 'loop_step': 1}; nret = nback = 0
@@ -116,7 +117,7 @@ def job_brent_step():
 
 def job_findmin(K):
     res = []; tag = 'findmin/K%d' % K
-    _, paths = run('@verif_c11_findmin', [A, B, TOL], user_f(maxcalls=K), pre=[A != B, TOL > 0], limits=Limits(max_paths=4000, feas_ms=300, max_seconds=300))
+    _, paths = run('@verif_c11_findmin', [A, B, TOL], user_f(maxcalls=K), pre=[A != B, TOL > 0], limits=Limits(max_paths=4000, feas_ms=300, max_seconds=300 * TL[0]))
     nret = 0
     for pi, p in enumerate(paths):
         if p.end is not None:
@@ -126,8 +127,8 @@ def job_findmin(K):
         res.append(prove('%s/not-worse-than-start[%d]' % (tag, pi), hyp, z3.And(F1(r) <= F1(A), F1(r) <= F1(B)), 60000, mv, key='C11/findmin/descent', sample=(nret == 1)))
     res.append(ob(tag + '/coverage', 'discharged' if nret else 'broken', key='C11/coverage', detail='%d returning of %d paths' % (nret, len(paths))))
     # Find_Maximum(f) == Find_Minimum(-f)
-    _, P = run('@verif_c11_findmax', [A, B, TOL], user_f(maxcalls=K), pre=[A != B, TOL > 0], limits=Limits(max_paths=4000, feas_ms=300, max_seconds=300))
-    _, Q = run('@verif_c11_findmin', [A, B, TOL], user_f(fn=lambda x: -F1(toR(x)), maxcalls=K), pre=[A != B, TOL > 0], limits=Limits(max_paths=4000, feas_ms=300, max_seconds=300))
+    _, P = run('@verif_c11_findmax', [A, B, TOL], user_f(maxcalls=K), pre=[A != B, TOL > 0], limits=Limits(max_paths=4000, feas_ms=300, max_seconds=300 * TL[0]))
+    _, Q = run('@verif_c11_findmin', [A, B, TOL], user_f(fn=lambda x: -F1(toR(x)), maxcalls=K), pre=[A != B, TOL > 0], limits=Limits(max_paths=4000, feas_ms=300, max_seconds=300 * TL[0]))
     n = 0
     for pi, p in enumerate(P):
         if p.end is not None: continue
@@ -156,7 +157,7 @@ def job_nm(nd, mode, extra):
     def xm(st): outp['x'] = st.alloc(8 * nd); return outp['x']
     def stt(st): outp['s'] = st.alloc(8 * (3 + nd + npts * nd)); return outp['s']
     inter = user_fv(lambda comps: FN(*[toR(c) for c in comps]), maxcalls=npts + extra)
-    _, paths = run('@verif_c11_nm', [mode, nd, lambda st: st.put_doubles(ppv), lambda st: st.put_doubles(DL), FT, xm, stt], inter, pre=[FT > 0], limits=Limits(max_paths=4000, feas_ms=1000, max_seconds=300, max_steps=20000000))
+    _, paths = run('@verif_c11_nm', [mode, nd, lambda st: st.put_doubles(ppv), lambda st: st.put_doubles(DL), FT, xm, stt], inter, pre=[FT > 0], limits=Limits(max_paths=4000, feas_ms=1000, max_seconds=300 * TL[0], max_steps=20000000))
     nret = 0
     for pi, p in enumerate(paths):
         cs = calls(p.st); mv = {'start': [x for r in start for x in r], 'ftol': FT, 'nd': nd, 'mode': mode, 'calls_x': [list(c[1]) for c in cs][:0], 'vals': [c[2] for c in cs]}
@@ -180,7 +181,7 @@ def job_nm(nd, mode, extra):
     return res
 
 def jobs(ctx):
-    module(ctx); b = BOUNDS[ctx.tier]
+    module(ctx); b = BOUNDS[ctx.tier]; TL[0] = 1 if ctx.quick() else 4
     J = [(job_brent_step, ()), (job_bracket, (b['bracket_evals'],)), (job_brent, (b['brent_evals'],)), (job_findmin, (b['findmin_evals'],))]
     for nd in b['nm_dims']:
         for mode in (0, 1, 2): J.append((job_nm, (nd, mode, b['nm_extra_evals'] if nd < 3 else 2)))
